@@ -27,6 +27,7 @@ from __future__ import annotations
 import itertools
 import json
 import os
+import re
 
 from hypothesis import strategies as st
 
@@ -200,6 +201,46 @@ def _explain(w, i, observed, base, feats, interfered):
                 cache[k] = canon(_solo(w, i, coerce_off=sub))
             if cache[k] == obs:
                 return "coercion-skipped", {"as_if_coerce_off": list(sub)}
+    regex_cols = [c for c in spec["cols"] if c.get("regex")]
+    if regex_cols and "schema-attrs" in interfered and spec["be"] == "pd":
+        # ColumnBackend.validate temporarily renames the shared regex Column to the column it is validating
+        pats = {c["n"] for c in regex_cols}
+        if observed.get("k") == "exc" and observed.get("type") == "KeyError" and \
+                observed.get("msg", "").strip("'\"") in pats:
+            return "regex-name-overridden", {"as_if": "pattern looked up as a column label"}
+        data_cols = list(w["calls"][i]["data"]["cols"])
+        names = sorted(pats | {m for c in regex_cols for m in data_cols if re.match(c["n"], m)}, key=len, reverse=True)
+
+        def modulo_names(txt):
+            # the same verdict reported under the pattern instead of the matched label (or vice versa)
+            for nm in names:
+                txt = txt.replace(json.dumps(nm)[1:-1], "<NAME>")
+            return txt
+
+        errs = observed.get("errors") or ([observed["error"]] if observed.get("k") == "SchemaError" else [])
+        if any(isinstance(e, dict) and e.get("reason") == "WRONG_FIELD_NAME" and
+               any(("field_name(%r)" % nm) in str(e.get("check")) for nm in names) for e in errs):
+            # the name check compared the series with the name another thread had just installed/restored
+            return "regex-name-overridden", {"as_if": "field-name check against the other thread's name"}
+        if any(isinstance(e, dict) and e.get("reason") == "CHECK_ERROR" and
+               any(("KeyError(\"%s\")" % nm) in str(e.get("msg")) or ("KeyError('%s')" % nm) in str(e.get("msg"))
+                   for nm in names) for e in errs):
+            return "regex-name-overridden", {"as_if": "check looked the component up under the other thread's name"}
+        if modulo_names(obs) == modulo_names(canon(base["solo"][i])):
+            return "regex-name-overridden", {"as_if": "same verdict, component reported under another name"}
+        for c in regex_cols:
+            for m in data_cols:
+                if not re.match(c["n"], m):
+                    continue
+                k = ("regex-as", i, c["n"], m)
+                if k not in cache:
+                    w2 = json.loads(json.dumps(w))
+                    for c2 in w2["schemas"][w["calls"][i]["s"]]["cols"]:
+                        if c2["n"] == c["n"]:
+                            c2["n"], c2["regex"] = m, False
+                    cache[k] = canon(_solo(w2, i))
+                if modulo_names(cache[k]) == modulo_names(obs):
+                    return "regex-name-overridden", {"as_if_name": m}
     return "unexplained", {}
 
 
@@ -331,6 +372,17 @@ def _(family, case, disc):
         and _preempted_in(disc, "pd-component-override", 2)
 
 
+@known.finding("C07/shared-pandas-schema-regex-name")
+def _(family, case, disc):
+    f = work.features(case["workload"])
+    if not f["pd_regex"]:
+        return False
+    if disc.kind == "outcome-differs:regex-name-overridden":
+        return _preempted_in(disc, "pd-column-name-override", 1)
+    return disc.kind == "schema-state-changed:component-name" and disc.detail["schema"] in f["shared_pd"] \
+        and _preempted_in(disc, "pd-column-name-override", 2)
+
+
 @known.finding("C07/global-config-context")
 def _(family, case, disc):
     f = work.features(case["workload"])
@@ -441,6 +493,10 @@ def fixed_workloads():
     ], [
         _call(0, "pd", {"a": [1, 2, 3], "b": [0.5, None, 1.5]}, head=2),
         _call(0, "pd", {"a": [1, 1, 300], "b": [0.5, 0.5, 1.5], "c": ["x", None, "y"]}, lazy=True, inplace=True),
+    ]))
+    W.append(_wl("pd-shared-regex/two-matches", [_schema("pd", [_col("^a.*$", regex=True, checks=gt0)])], [
+        _call(0, "pd", {"a1": [1, 2], "a2": [3, 4]}),
+        _call(0, "pd", {"a1": [1, 2], "a2": [-3, 4]}),
     ]))
     W.append(_wl("cfg/pd+pl_lf", [_schema("pd", [_col("a", checks=gt0)]), pl_gt], [
         _call(0, "pd", {"a": [-1, 2]}),
@@ -627,7 +683,8 @@ def _gen_workload(draw):
 
 
 def strat_multi():
-    seg = st.tuples(st.integers(0, 2), st.one_of(st.integers(1, 40), st.integers(1, 320))).map(list)
+    # run lengths: most windows of a call lie between yield point ~60 and ~450; short runs keep a thread inside
+    seg = st.tuples(st.integers(0, 2), st.one_of(st.integers(1, 30), st.integers(60, 450), st.integers(1, 900))).map(list)
 
     def fix(w, segs):
         n = len(w["calls"])
